@@ -7,6 +7,23 @@ import (
 	"sort"
 )
 
+// escapeFilterLabel writes a filter label the way NewSimpleURL reads it, which
+// is as the content of a JSON string (a label cannot start with a curly
+// bracket, that is the start of a filter object).
+func escapeFilterLabel(label string) string {
+	b, err := json.Marshal(label)
+	if err != nil || len(b) < 2 {
+		return label
+	}
+
+	esc := string(b[1 : len(b)-1])
+	if len(esc) > 0 && esc[0] == '{' {
+		esc = `\u007b` + esc[1:]
+	}
+
+	return esc
+}
+
 // NewURL builds a URL from a SimpleURL and a schema for validating and
 // supplementing the object with extra information.
 func NewURL(schema *Schema, su SimpleURL) (*URL, error) {
@@ -169,7 +186,7 @@ func (u *URL) String() string {
 		param := "filter=" + url.QueryEscape(string(mf))
 		urlParams = append(urlParams, param)
 	} else if u.Params.FilterLabel != "" {
-		urlParams = append(urlParams, "filter="+url.QueryEscape(u.Params.FilterLabel))
+		urlParams = append(urlParams, "filter="+url.QueryEscape(escapeFilterLabel(u.Params.FilterLabel)))
 	}
 
 	// Pagination
